@@ -55,7 +55,7 @@ def width(kw):
 
 def gen_case(rng, W):
     """one self-contained case -> (ops, meta)"""
-    g = tc.Gen(rng)
+    g = tc.Gen(rng, array_forms=True)
     g.emit("cfg %d 0 1" % W)
     for _ in range(rng.randint(2, 5)):
         g.new()
@@ -72,10 +72,7 @@ def gen_case(rng, W):
     distinct = rng.random() < 0.3
     indep, dep = tc.pick_lists(rng, g, n, m, distinct=distinct)
     n, m = len(indep), len(dep)
-    for k in indep:
-        g.emit("indep %d" % k)
-    for k in dep:
-        g.emit("dep %d" % k)
+    tc.emit_lists(g, rng, indep, dep)     # scalar forms and the pointer-and-count forms Stack::independent/dependent(const A* x, n)
     q = []   # (kind, opindex, info)
     for mode in ("auto", "fwd", "rev"):
         q.append(("mat", len(g.ops), mode)); g.emit("jac %s mat" % mode)
@@ -123,10 +120,7 @@ def gen_case(rng, W):
     ins = [k for k in range(g.n_inputs) if k in g.live]
     outs = list(g.live)
     if ins and outs:
-        for k in ins:
-            g.emit("indep %d" % k)
-        for k in outs:
-            g.emit("dep %d" % k)
+        tc.emit_lists(g, rng, ins, outs)
         q.append(("true", len(g.ops), (ins, outs))); g.emit("jac auto mat")
     return g.ops, {"queries": q, "indep": indep, "dep": dep, "n": n, "m": m}
 
@@ -269,10 +263,7 @@ def gen_fcase(rng, witness=False):
     g.emit("hex 1")
     g.emit("tape")
     n, m = len(indep), len(dep)
-    for k in indep:
-        g.emit("indep %d" % k)
-    for k in dep:
-        g.emit("dep %d" % k)
+    tc.emit_lists(g, rng, indep, dep)     # scalar forms and the pointer-and-count forms Stack::independent/dependent(const A* x, n)
     q = []          # (kind, op index, info)
     for mode in ("fwd", "rev", "auto"):
         q.append(("jac", len(g.ops), (mode, 1, 0, m * n))); g.emit("jac %s ptr 1 0 %d" % (mode, m * n))
